@@ -23,6 +23,13 @@ var valueIrregular = map[string]string{
 	"DecodeLoudnessBaseBoxSR": "12-bit signed fields are sign-extended with shift pairs",
 }
 
+// headerFormKept: boxes whose structure records whether the box came with a 16-byte (largesize) header, so
+// that re-encoding reproduces the header form. For every other box a 16-byte header on a box smaller than 2^32
+// is re-encoded as an 8-byte header (size normalisation, listed as "hdr16->8" in the ledger output).
+var headerFormKept = map[string]string{
+	"DecodeMdatSR": "MdatBox.LargeSize records the header form",
+}
+
 // normalisations: disagreements between decoder and encoder that are accepted, committed normalisations of
 // the input (the property's explicit list). Key: "<decoder>|<normalised message>".
 var normalisations = map[string]string{
